@@ -212,6 +212,21 @@ SAFE_METHODS = {
 }
 
 
+def _json_pure(v, k):
+    import json
+
+    def plain(x):
+        if isinstance(x, (Obj, ClassRef)):
+            raise Raised('TypeError', None)          # json.dumps of an object that is not JSON data
+        if isinstance(x, dict):
+            return all(plain(a) and plain(b) for a, b in x.items())
+        if isinstance(x, (list, tuple)):
+            return all(plain(a) for a in x)
+        return True
+    plain(v)
+    return json.dumps(v, **{kk: vv for kk, vv in k.items() if kk in ('indent', 'sort_keys', 'ensure_ascii', 'separators')})
+
+
 def _re_sub(it, pat, repl, s, *a, **k):
     return re.sub(pat, (lambda m: repl(m)) if callable(repl) else repl, s, *a, **k)
 
@@ -226,6 +241,8 @@ PURE_STDLIB = {
     're.sub': _re_sub, 're.match': lambda it, p, s, *a: re.match(p, s, *a), 're.fullmatch': lambda it, p, s, *a: re.fullmatch(p, s, *a),
     're.search': lambda it, p, s, *a: re.search(p, s, *a), 're.split': lambda it, p, s, *a: re.split(p, s, *a), 're.findall': lambda it, p, s, *a: re.findall(p, s, *a),
     're.escape': lambda it, s: re.escape(s), 're.compile': lambda it, p, *a: re.compile(p, *[x for x in a if isinstance(x, int)]),
+    'json.dumps': lambda it, v, *a, **k: _json_pure(v, k),
+    'json.loads': lambda it, v, *a, **k: __import__('json').loads(v),
     're.finditer': lambda it, p, s, *a: list((p if isinstance(p, re.Pattern) else re.compile(p)).finditer(s)),
     'defaultdict': lambda it, f=None: _defaultdict(f), 'collections.defaultdict': lambda it, f=None: _defaultdict(f),
     'OrderedDict': lambda it, *a: dict(*a), 'collections.OrderedDict': lambda it, *a: dict(*a),
